@@ -26,7 +26,7 @@ def run_variant(v):
         shutil.copytree(os.path.join(REPO, "Lib", "fontTools"), dst, ignore=shutil.ignore_patterns("__pycache__", "*.pyc"))
         touched = []
         if "patch" in v:
-            r = subprocess.run(["patch", "-p1", "-s", "-d", scratch, "-i", os.path.join(VERIF, v["patch"])], capture_output=True, text=True)
+            r = subprocess.run(["patch", "-p1", "-s", "--fuzz=3", "-d", scratch, "-i", os.path.join(VERIF, v["patch"])], capture_output=True, text=True)
             if r.returncode != 0:
                 return v, "SETUP-FAIL", "patch does not apply: " + r.stdout[-300:] + r.stderr[-300:]
         for ed in v.get("edits", []):
